@@ -171,9 +171,48 @@ def grad_allowance(fam, x, d):
     return 8.0 * (len(g) + 2) * EPS * float(onp.linalg.norm(g))
 
 
+# -- quadratic + radial quartic c (x.x)^2 (couples the coordinates), with a given stale-preconditioner point -------
+def rq_value(x, d):
+    return 0.5 * x @ d["A"] @ x - d["b"] @ x + d["c4"] * (x @ x) ** 2
+
+
+def rq_grad(x, d):
+    return d["A"] @ x - d["b"] + 4.0 * d["c4"] * (x @ x) * x
+
+
+def rq_resolution(x, d):
+    return 0.5 * onp.abs(x) @ onp.abs(d["A"]) @ onp.abs(x) + onp.abs(d["b"]) @ onp.abs(x) + abs(d["c4"]) * (x @ x) ** 2
+
+
+def rq_gres(x, d):
+    return onp.abs(d["A"]) @ onp.abs(x) + onp.abs(d["b"]) + 4.0 * abs(d["c4"]) * (x @ x) * onp.abs(x)
+
+
+# -- multi-well: 1/2|x|^2 - b.x + a sum cos(3 x) ------------------------------------------------------------------------
+def mw_value(x, d):
+    return 0.5 * x @ x - d["b"] @ x + d["a"] * onp.sum(onp.cos(3.0 * x))
+
+
+def mw_grad(x, d):
+    return x - d["b"] - 3.0 * d["a"] * onp.sin(3.0 * x)
+
+
+def mw_resolution(x, d):
+    return 0.5 * x @ x + onp.abs(d["b"]) @ onp.abs(x) + abs(d["a"]) * x.size
+
+
+def mw_gres(x, d):
+    return onp.abs(x) + onp.abs(d["b"]) + 3.0 * abs(d["a"]) * onp.ones_like(x)
+
+
 FAMILIES = {
+    "radialquartic": (rq_value, rq_grad, rq_resolution),
+    "multiwell": (mw_value, mw_grad, mw_resolution),
     "quartic": (q_value, q_grad, q_resolution),
     "rosenbrock": (ros_value, ros_grad, ros_resolution),
     "barrier": (bar_value, bar_grad, bar_resolution),
     "cos1d": (cos_value, cos_grad, cos_resolution),
 }
+
+
+GRAD_RESOLUTION.update({"radialquartic": rq_gres, "multiwell": mw_gres})
